@@ -389,28 +389,32 @@ def modrefCanon : List (String × Bool × List String × List String × List Str
 
 def costSitesUrl : List (String × String) := [
   ("IPv6Addr.String", "string += output"),
+  ("SearchParams.QueryEscape", "copying conversion string(percentEncoded[:])"),
   ("SearchParams.init", "call strings.ReplaceAll"),
   ("SearchParams.init", "call strings.SplitN"),
-  ("inputString.remainingFromPointer", "copying conversion string(i.runes[:])"),
-  ("inputString.remainingStartsWith", "copying conversion string(i.runes[:])"),
-  ("isDoubleDotPathSegment", "call strings.ToLower"),
-  ("isSingleDotPathSegment", "call strings.ToLower"),
-  ("newInputString", "copying conversion []rune(s)"),
+  ("SearchParams.init", "copying conversion []byte(s)"),
   ("parser.BasicParser", "call newInputString"),
+  ("parser.BasicParser", "call strings.Split"),
+  ("parser.BasicParser", "call strings.ToLower"),
+  ("parser.BasicParser", "copying conversion []byte(s)"),
   ("parser.BasicParser", "copying conversion []rune(buffer.String())"),
+  ("parser.BasicParser", "copying conversion []rune(s)"),
   ("parser.BasicParser", "copying conversion string(?)"),
-  ("parser.DecodePercentEncoded", "copying conversion []byte(s)"),
+  ("parser.BasicParser", "copying conversion string(bb)"),
+  ("parser.BasicParser", "copying conversion string(i.runes[:])"),
+  ("parser.BasicParser", "copying conversion string(percentEncoded[:])"),
+  ("parser.BasicParser", "copying conversion string(runes[:])"),
   ("parser.DecodePercentEncoded", "copying conversion string(bytes[:])"),
-  ("parser.PercentEncodeString", "copying conversion []rune(s)"),
-  ("parser.parseHost", "call newInputString"),
+  ("parser.PercentEncodeString", "copying conversion string(percentEncoded[:])"),
+  ("parser.parseHost", "copying conversion []rune(s)"),
   ("parser.parseOpaqueHost", "copying conversion []rune(input[:])"),
-  ("parser.percentEncodeRune", "copying conversion string(percentEncoded[:])"),
-  ("percentEncodeByte", "copying conversion string(percentEncoded)"),
-  ("remainingIsInvalidPercentEncoded", "copying conversion string(runes[:])")]
+  ("parser.parseOpaqueHost", "copying conversion string(percentEncoded[:])"),
+  ("parser.parseOpaqueHost", "copying conversion string(runes[:])"),
+  ("percentEncodeString", "copying conversion string(percentEncoded)")]
 
 def costSitesCanon : List (String × String) := [
-  ("decodePercentEncoded", "copying conversion []byte(s)"),
-  ("percentEncodeByte", "copying conversion string(percentEncoded)")]
+  ("percentEncode", "copying conversion string(percentEncoded)"),
+  ("repeatedDecode", "copying conversion []byte(s)")]
 
 def set_c0 : List (Nat × Nat) := [(0x0, 0x1f), (0x7f, 0x10ffff)]
 
